@@ -346,6 +346,13 @@ func runProperty(repo, mirror, id string, timeout int, tier string) *checkResult
 		res.errors = append(res.errors, "load: "+err.Error())
 		return res
 	}
+	ips = nil
+	for path := range p.Pkgs {
+		if strings.HasPrefix(path, modPath) {
+			ips = append(ips, path)
+		}
+	}
+	sort.Strings(ips)
 	cs, err := LoadContracts(repo, mirror, modPath, ips)
 	if err != nil {
 		res.errors = append(res.errors, "contracts: "+err.Error())
@@ -434,6 +441,9 @@ func runProperty(repo, mirror, id string, timeout int, tier string) *checkResult
 	RunTasks(tasks, 6)
 	for _, g := range gens {
 		g.Finalize()
+	}
+	if p.UsedCHA {
+		res.assumptions["interface method calls are resolved by class-hierarchy analysis over the loaded packages (implementations in packages that are not loaded are not considered)"] = true
 	}
 	for k := range p.UsedPureDynamic {
 		res.assumptions["calls through the callback field "+k+" are assumed not to write the heap (pure-dynamic directive)"] = true
